@@ -47,6 +47,9 @@ mod shell;
 mod signals;
 mod types;
 
+#[cfg(cicada_verif)]
+mod verif_hooks;
+
 // #[allow(clippy::cast_lossless)]
 fn main() {
     unsafe {
